@@ -43,7 +43,7 @@ class CholLinearOperator(RootLinearOperator):
                 chol = TriangularLinearOperator(chol, upper=True)
             else:
                 raise ValueError("chol must be either lower or upper triangular")
-        super().__init__(chol)
+        super().__init__(chol, upper=upper)  # keep `upper` in _kwargs so that copies and rebuilds preserve it
         self.upper = upper
 
     @property
@@ -62,7 +62,29 @@ class CholLinearOperator(RootLinearOperator):
     @cached
     def _diagonal(self: Float[LinearOperator, "... M N"]) -> Float[torch.Tensor, "... N"]:
         # TODO: Can we be smarter here?
-        return (self.root.to_dense() ** 2).sum(-1)
+        # diag(L L^T) sums the squared rows of L, diag(R^T R) the squared columns of R
+        return (self.root.to_dense() ** 2).sum(-2 if self.upper else -1)
+
+    def _matmul(
+        self: Float[LinearOperator, "*batch M N"],
+        rhs: Union[Float[torch.Tensor, "*batch2 N C"], Float[torch.Tensor, "*batch2 N"]],
+    ) -> Union[Float[torch.Tensor, "... M C"], Float[torch.Tensor, "... M"]]:
+        if self.upper:  # R^T R
+            return self.root._t_matmul(self.root._matmul(rhs))
+        return super()._matmul(rhs)
+
+    def _root_decomposition(
+        self: Float[LinearOperator, "... N N"]
+    ) -> Union[Float[torch.Tensor, "... N N"], Float[LinearOperator, "... N N"]]:
+        # a root B with B B^T = A: L for the lower orientation, R^T for the upper one
+        return self.root._transpose_nonbatch() if self.upper else self.root
+
+    def root_decomposition(
+        self: Float[LinearOperator, "*batch N N"], method: Optional[str] = None
+    ) -> Float[LinearOperator, "*batch N N"]:
+        if self.upper:
+            return RootLinearOperator(self.root._transpose_nonbatch())
+        return self
 
     def _solve(
         self: Float[LinearOperator, "... N N"],
@@ -95,7 +117,9 @@ class CholLinearOperator(RootLinearOperator):
         Returns the inverse of the CholLinearOperator.
         """
         Linv = self.root.inverse()  # this could be slow in some cases w/ structured lazies
-        return CholLinearOperator(TriangularLinearOperator(Linv, upper=not self.upper), upper=not self.upper)
+        # (L L^T)^{-1} = L^{-T} L^{-1} and (R^T R)^{-1} = R^{-1} R^{-T}: a (triangular) root times its transpose,
+        # but with the opposite triangle first, so it is not of Cholesky form
+        return RootLinearOperator(Linv if self.upper else Linv._transpose_nonbatch())
 
     def inv_quad(
         self: Float[LinearOperator, "*batch N N"],
@@ -164,7 +188,8 @@ class CholLinearOperator(RootLinearOperator):
         method: Optional[str] = None,
     ) -> Union[Float[LinearOperator, "... N N"], Float[Tensor, "... N N"]]:
         inv_root = self.root.inverse()
-        return RootLinearOperator(inv_root._transpose_nonbatch())
+        # A^{-1} = L^{-T} L^{-1} (lower) resp. R^{-1} R^{-T} (upper)
+        return RootLinearOperator(inv_root if self.upper else inv_root._transpose_nonbatch())
 
     def solve(
         self: Float[LinearOperator, "... N N"],
